@@ -1,32 +1,54 @@
-"""C18 health check wrapper + selection: generator, independent monitor."""
+"""C18 health check wrapper + selection: generator, independent monitor.
+
+The monitor states the property and nothing more (see `monitor`); everything else the code does - the two
+consecutive-result counters, which eligible resource FirstAvailable/PreferHealthy/a custom selector returns,
+the order in which round robin walks the eligible set, the tick schedule - is pinned only by the comparison
+of the implementation's trace with the model's."""
 PROP = "C18"
 DRIVER = "c18"
 MODEL = "C18"
 MODEL_QUALID = "Model.Health.run_script"
 FORMAT = ("script [n_res; failure_threshold; success_threshold; interval_ms; timeout_ms; initial_delay_ms; "
-          "strategy 0 FirstAvailable/1 RoundRobin/2 PreferHealthy/3 Custom last-healthy/4 Custom Some(1)/5 Custom None; "
+          "strategy + 16*route (strategy 0 FirstAvailable/1 RoundRobin/2 PreferHealthy/3 Custom last-healthy/4 Custom "
+          "Some(1)/5 Custom None; route 0 wrapper setters/1 HealthCheckConfig::builder()+with_config/2 with_config(decoy) "
+          "then setters/3 setters(decoy) then with_config); "
           "R; n_ev; (answer 0 Healthy/1 Degraded/2 Unhealthy/3 Unknown, delay_ms)*R per resource (k-th check of the "
           "resource; delay > timeout = timed out); (op, arg)*n_ev: op 0 advance arg ms then observe, op 1 get_healthy "
-          "x arg, op 2 get_usable x arg] -> trace [per op 0: per resource status, consecutive_failures, "
+          "x arg, op 2 get_usable x arg] -> trace [per op 0: per resource status (+100/+200: get_status / "
+          "get_all_statuses disagree with get_health_details), consecutive_failures, "
           "consecutive_successes, checks started, checks finished; per op 1/2: selected resource id or -1 per call]")
-RULE = ("random: 0-4 resources, thresholds 1-4 (rarely 0), intervals 1-12 ms incl. shorter than slow checks (missed "
-        "ticks), timeouts 0-8 ms, delays hitting the timeout exactly and exceeding it, long alternating / streaky / "
-        "unknown-laden answer sequences, all strategies incl. custom selectors, selections interleaved with status "
-        "changes and k*n round-robin bursts; thorough adds an exhaustive sweep of short answer sequences; "
+RULE = ("random: 0-8 resources, thresholds 1-12 (rarely 0; large ones 255/256/257/300/65536/2^32-1 with streaks that "
+        "must not flip and 300-check streaks that must), all four configuration routes, intervals 1-12 ms incl. shorter "
+        "than slow checks (missed ticks), timeouts 0-8 ms, huge interval/timeout/initial delay, delays hitting the "
+        "timeout exactly and exceeding it, long alternating / streaky / unknown-laden answer sequences, streaks of "
+        "exactly threshold-1 / threshold / threshold+1, all strategies incl. custom selectors, selections interleaved "
+        "with status changes, k*n round-robin bursts, get_healthy/get_usable alternating (one cursor per accessor); "
+        "thorough adds an exhaustive sweep of short answer sequences; "
         "non-trivial = some published status flipped away from Unknown and back across a threshold")
 TRUSTED = ["the scripted HealthChecker in harness/src/bin/c18.rs (answers after sleeping delay_ms; counts started/finished checks)",
            "custom selector closures mirrored by hand in Model/Health.v strategy_of and harness/src/bin/c18.rs"]
-ASSUMPTIONS = ["interval >= 1 ms (tokio::time::interval panics on a zero period inside the spawned task)",
+ASSUMPTIONS = ["interval >= 1 ms (tokio::time::interval panics on a zero period inside the spawned task; Props: C18_fuel_suffices)",
                "fewer than 2^64 checks per resource (u64 counters) ; the round-robin cursor wraps at 2^64 as AtomicUsize does",
-               "one start() per wrapper; stop()/restart are not exercised",
-               "whole-millisecond durations (tokio timer granularity)"]
+               "one start() per wrapper; stop()/restart are not exercised; the checker does not panic",
+               "whole-millisecond durations (tokio timer granularity); thresholds fit u32",
+               "get_healthy/get_usable run on the single-threaded runtime: the two status reads inside one call "
+               "(filter, then select) see the same statuses"]
+# scripts on which the REAL code violates the property (none known)
+KNOWN_DEFECT = []
+# The flip conditions are read as necessary AND sufficient (a failure completing failure_threshold consecutive
+# failures DOES publish Unhealthy, a Healthy check completing success_threshold non-failing checks DOES publish
+# Healthy). Set to False to demand only the "only after / only on" direction: a flip whose condition holds may then
+# also be withheld (e.g. an implementation that wants success_threshold *Healthy* results) without a monitor failure.
+SUFFICIENT_FLIPS = True
 
 H, D, U, K = 0, 1, 2, 3
+U32 = 2 ** 32 - 1
+BIG = 10 ** 12          # "huge" duration in ms (about 31 years): never elapses in a script
 
 
-def mk(n, f, s, interval, timeout, init, strat, tables, evs):
+def mk(n, f, s, interval, timeout, init, strat, tables, evs, route=0):
     r = max([len(t) for t in tables] + [0])
-    out = [n, f, s, interval, timeout, init, strat, r, len(evs)]
+    out = [n, f, s, interval, timeout, init, strat + 16 * route, r, len(evs)]
     for t in tables:
         t = list(t) + [(H, 0)] * (r - len(t))
         for (a, d) in t:
@@ -37,7 +59,7 @@ def mk(n, f, s, interval, timeout, init, strat, tables, evs):
 
 
 def corpus():
-    return [
+    out = [
         mk(2, 2, 2, 10, 5, 3, 1, [[(H, 0), (U, 0), (U, 0), (H, 0)], [(D, 2), (H, 9), (K, 0), (H, 0)]],
            [(0, 2), (0, 1), (0, 2), (0, 5), (0, 3), (0, 2), (0, 5), (0, 5), (0, 10), (0, 10), (1, 3), (2, 4)]),
         # hysteresis: f=3, s=2, alternating
@@ -48,13 +70,40 @@ def corpus():
         # missed ticks: interval 2, slow checks
         mk(2, 2, 1, 2, 7, 1, 2, [[(H, 3), (U, 9), (H, 7), (U, 1)], [(D, 0), (U, 0), (U, 0), (H, 0)]],
            [(0, 1)] * 30),
+        # reproducer of the shared-cursor defect fixed in /repo 73b01f9: two Healthy resources, get_healthy /
+        # get_usable alternating. Before the fix every get_healthy returned resource 0 (picks 0 1 0 1 0 1 0 1);
+        # with one cursor per accessor each accessor alternates 0, 1 (picks 0 0 1 1 0 0 1 1). seeded/C18-r3.
+        [2, 1, 1, 5, 2, 0, 1, 1, 10, 0, 0, 0, 0, 0, 0, 0, 1, 1, 1, 2, 1, 1, 1, 2, 1, 1, 1, 2, 1, 1, 1, 2, 1],
+        # differing eligible sets (healthy {0,1}, usable {0,1,2}) with alternating accessors
+        mk(3, 1, 1, 5, 2, 0, 1, [[(H, 0)], [(H, 0)], [(D, 0)]], [(0, 0), (0, 1)] + [(1, 1), (2, 1)] * 6),
+        # an accessor's rotation continues across waits and status changes that leave ITS eligible set alone
+        mk(3, 1, 1, 2, 2, 0, 1, [[(H, 0)] * 8, [(H, 0)] * 8, [(D, 0), (U, 0)] * 4],
+           [(0, 0)] + [(1, 1), (2, 1), (0, 2)] * 8),
     ]
+    # every configuration route, thresholds different from each other and from the defaults (2, 1)
+    for route in range(4):
+        for strat in (0, 1, 4):
+            out.append(mk(2, 5, 3, 4, 2, 1, strat, [[(U, 0)] * 6 + [(H, 0)] * 4, [(H, 0), (D, 0), (U, 3)] * 3],
+                          [(0, 1)] + [(0, 4), (1, 2), (2, 2)] * 11, route=route))
+    # thresholds beyond a byte / beyond anything reachable: long failure streaks flip exactly at f, never before
+    tb = [[(U, 0)] * 300 + [(H, 0)] * 5]
+    for f in (255, 256, 257):
+        out.append(mk(1, f, 3, 1, 2, 0, 0, tb, [(0, 0)] + [(0, 50)] * 4 + [(0, 10)] * 12 + [(2, 1)], route=f % 4))
+    out.append(mk(1, U32, U32, 1, 2, 0, 0, [[(U, 0)] * 20 + [(H, 0)] * 20], [(0, 0)] + [(0, 7), (1, 1), (2, 1)] * 7))
+    out.append(mk(1, 3, 256, 1, 2, 0, 2, [[(U, 0)] * 3 + [(H, 0), (D, 0)] * 140], [(0, 0), (0, 5)] + [(0, 50)] * 4 + [(0, 10)] * 12 + [(1, 1)]))
+    # huge durations: checks never start / start once / never time out
+    out.append(mk(2, 1, 1, 3, 2, BIG, 1, [[(H, 0)], [(U, 0)]], [(0, 0), (0, 40), (1, 2), (2, 2)]))
+    out.append(mk(2, 1, 1, BIG, 2, 0, 1, [[(H, 0), (U, 0)], [(D, 1), (H, 0)]], [(0, 0), (0, 40), (1, 2), (2, 4)]))
+    out.append(mk(2, 2, 1, 3, BIG, 0, 0, [[(U, 9), (U, 30), (H, 0)], [(D, 1), (U, 0), (U, 0)]],
+                  [(0, 0)] + [(0, 5), (1, 1), (2, 1)] * 12))
+    return out
 
 
-def rand_answers(rng, r, timeout):
-    mode = rng.randrange(5)
+def rand_answers(rng, r, timeout, f=2, s=2):
+    mode = rng.randrange(6)
     out = []
     cur = rng.choice([H, U])
+    run_left = 0
     for k in range(r):
         if mode == 0:
             a = rng.choice([H, D, U, K])
@@ -66,8 +115,18 @@ def rand_answers(rng, r, timeout):
             a = [H, U][k % 2] if rng.random() < 0.8 else rng.choice([D, K])
         elif mode == 3:          # mostly failing
             a = U if rng.random() < 0.7 else rng.choice([H, D, K])
-        else:                    # mostly fine
+        elif mode == 4:          # mostly fine
             a = rng.choice([H, H, D]) if rng.random() < 0.75 else rng.choice([U, K])
+        else:                    # runs of exactly threshold-1 / threshold / threshold+1, sprinkled with Unknown
+            if run_left <= 0:
+                cur = U if cur != U else rng.choice([H, H, D])
+                thr = f if cur == U else s
+                run_left = max(1, min(40, thr) + rng.choice([-1, 0, 0, 1]))
+            if rng.random() < 0.12:
+                a = K
+            else:
+                a = cur if cur == U else rng.choice([cur, H, D])
+                run_left -= 1
         c = rng.random()
         if c < 0.55:
             d = 0
@@ -81,29 +140,79 @@ def rand_answers(rng, r, timeout):
     return out
 
 
+def rand_threshold(rng):
+    c = rng.random()
+    if c < 0.03:
+        return 0
+    if c < 0.80:
+        return rng.choice([1, 1, 2, 2, 3, 4])
+    if c < 0.96:
+        return rng.choice([5, 6, 7, 8, 9, 12])
+    return rng.choice([255, 256, 257, 300, 65536, U32])
+
+
 def rand_script(rng, small=False):
-    n = rng.choice([0, 1, 1, 2, 2, 3, 3, 4])
-    f = rng.choice([1, 1, 2, 2, 3, 4]) if rng.random() < 0.97 else 0
-    s = rng.choice([1, 1, 2, 2, 3, 4]) if rng.random() < 0.97 else 0
+    n = rng.choice([0, 1, 1, 2, 2, 3, 3, 4, 4, 5, 6, 8])
+    f = rand_threshold(rng)
+    s = rand_threshold(rng)
     interval = rng.choice([1, 2, 3, 4, 5, 6, 7, 10, 12])
     timeout = rng.choice([0, 1, 2, 3, 4, 5, 8])
     init = rng.choice([0, 0, 1, 3, 7])
+    if rng.random() < 0.03:
+        k = rng.randrange(3)
+        if k == 0: interval = BIG
+        elif k == 1: timeout = BIG
+        else: init = BIG
     strat = rng.choice([0, 1, 1, 1, 2, 2, 3, 4, 5])
-    r = rng.randrange(0, 6 if small else 16)
-    tables = [rand_answers(rng, r, timeout) for _ in range(n)]
+    route = rng.choice([0, 0, 1, 1, 2, 3])
+    long_run = (not small) and max(f, s) in range(5, 13)
+    r = rng.randrange(0, 6 if small else (40 if long_run else 16))
+    tables = [rand_answers(rng, r, timeout, f, s) for _ in range(n)]
     evs = [(0, 0)]
     total = 0
-    budget = 60 if small else 160
+    budget = 60 if small else (300 if long_run else 160)
     while total < budget and len(evs) < 60:
         c = rng.random()
         if c < 0.55:
             a = rng.choice([1, 1, 1, 2, 3, interval, interval, interval + 1, 2 * interval])
+            a = min(a, 30)
             evs.append((0, a)); total += a
-        elif c < 0.8:
+        elif c < 0.75:
             evs.append((rng.choice([1, 2]), rng.choice([1, 1, 2, 3])))
-        else:
+        elif c < 0.9:
             evs.append((rng.choice([1, 2]), max(1, n) * rng.choice([1, 2, 3])))
-    return mk(n, f, s, interval, timeout, init, strat, tables, evs)
+        else:
+            # the two accessors alternating
+            first = rng.choice([1, 2])
+            for j in range(rng.choice([2, 4, 6])):
+                evs.append((first if j % 2 == 0 else 3 - first, rng.choice([1, 1, 2])))
+    return mk(n, f, s, interval, timeout, init, strat, tables, evs, route=route)
+
+
+def rr_script(rng):
+    """round robin under status changes: mostly usable resources, both accessors in every mix"""
+    n = rng.choice([2, 3, 3, 4, 5, 6])
+    f, s = rng.choice([1, 2]), rng.choice([1, 2])
+    interval = rng.choice([2, 3, 5])
+    r = rng.randrange(1, 8)
+    tables = []
+    for _ in range(n):
+        kind = rng.choice([H, H, H, D, U])
+        tables.append([((kind if rng.random() < 0.8 else rng.choice([H, D, U, K])), 0) for _ in range(r)])
+    evs = [(0, 0)]
+    for _ in range(rng.randrange(3, 10)):
+        evs.append((0, rng.choice([1, interval, interval, 2 * interval])))
+        c = rng.random()
+        if c < 0.4:
+            evs.append((rng.choice([1, 2]), n * rng.choice([1, 2, 3])))
+        elif c < 0.7:
+            first = rng.choice([1, 2])
+            for j in range(rng.choice([2, 3, 4, 6, 8])):
+                evs.append((first if j % 2 == 0 else 3 - first, rng.choice([1, 1, 2, n])))
+        else:
+            for j in range(rng.randrange(1, 5)):
+                evs.append((rng.choice([1, 2]), rng.randrange(1, 2 * n + 1)))
+    return mk(n, f, s, interval, 2, rng.choice([0, 1]), 1, tables, evs, route=rng.randrange(4))
 
 
 def generate(rng, tier):
@@ -111,6 +220,8 @@ def generate(rng, tier):
     n = 1500 if tier == "quick" else 30000
     for i in range(n):
         out.append(rand_script(rng, small=(i % 3 == 0)))
+    for i in range(n // 6):
+        out.append(rr_script(rng))
     if tier == "thorough":
         # exhaustive: one resource, all answer sequences of length <= 5 over {H, D, U, K, slow}, thresholds 1..3
         import itertools
@@ -120,7 +231,13 @@ def generate(rng, tier):
                 for (f, s) in ((1, 1), (2, 2), (3, 2), (2, 3)):
                     if L == 5 and (f, s) != (2, 2):
                         continue
-                    out.append(mk(1, f, s, 4, 2, 0, 0, [list(seq)], [(0, 0)] + [(0, 4), (1, 1), (2, 1)] * L))
+                    out.append(mk(1, f, s, 4, 2, 0, 0, [list(seq)], [(0, 0)] + [(0, 4), (1, 1), (2, 1)] * L,
+                                  route=(L + f) % 4))
+        # exhaustive: every interleaving of the two accessors up to 6 calls on 3 resources, round robin
+        for pat in ([H, H, H], [H, D, H], [H, U, H], [D, H, U], [H, H, D]):
+            for L in range(1, 7):
+                for ops in itertools.product((1, 2), repeat=L):
+                    out.append(mk(3, 1, 1, 5, 2, 0, 1, [[(a, 0)] for a in pat], [(0, 0), (0, 1)] + [(o, 1) for o in ops]))
     return out
 
 
@@ -130,6 +247,7 @@ def decode(s, t):
     if len(s) < 9:
         return None
     n, f, sth, interval, timeout, init, strat, r, n_ev = s[:9]
+    strat = strat % 16
     if len(s) < 9 + 2 * n * r + 2 * n_ev:
         return None
     tables = [[(s[9 + 2 * (i * r + k)], s[9 + 2 * (i * r + k) + 1]) for k in range(r)] for i in range(n)]
@@ -163,111 +281,140 @@ def eff(tables, i, k, timeout):
     return a
 
 
+def trailing(nk, pred):
+    n = 0
+    for x in reversed(nk):
+        if not pred(x):
+            break
+        n += 1
+    return n
+
+
+def specified_status(res, f, sth):
+    """the status the property's rule publishes after the effective results res (oldest first):
+    Unknown results are skipped; Degraded at once; Unhealthy iff a failure completes >= f consecutive failures;
+    Healthy iff a Healthy result completes >= sth consecutive non-failing results; otherwise unchanged"""
+    st, nk = K, []
+    for x in res:
+        if x == K:
+            continue
+        nk.append(x)
+        if x == D:
+            st = D
+        elif x == U:
+            if trailing(nk, lambda y: y == U) >= f:
+                st = U
+        else:
+            if trailing(nk, lambda y: y in (H, D)) >= sth:
+                st = H
+    return st
+
+
+def permitted_statuses(res, f, sth):
+    """necessity only: the set of statuses the rule permits after res when a threshold flip may be withheld"""
+    poss, nk = {K}, []
+    for x in res:
+        if x == K:
+            continue
+        nk.append(x)
+        if x == D:
+            poss = {D}
+        elif x == U:
+            if trailing(nk, lambda y: y == U) >= f:
+                poss = poss | {U}
+        else:
+            if trailing(nk, lambda y: y in (H, D)) >= sth:
+                poss = poss | {H}
+    return poss
+
+
+NAMES = {H: "Healthy", D: "Degraded", U: "Unhealthy", K: "Unknown"}
+
+
 def monitor(s, t):
-    """independent restatement of C18 over the implementation's trace"""
+    """Independent restatement of C18 over the implementation's trace. Clauses (each message names its clause):
+      (a) Unhealthy is published only after failure_threshold consecutive failed or timed-out checks, and then it is;
+      (b) Healthy is published only on a Healthy check completing >= success_threshold consecutive non-failing
+          checks, and then it is;
+      (c) a Degraded result is published at once;  (d) Unknown results change nothing (the published status; and
+          they neither break nor extend a run);  (e) nothing else changes the published status;
+      (f) get_healthy returns only published-Healthy resources, get_usable only Healthy/Degraded ones;
+      (g) both return nothing when none qualifies, and the built-in strategies return something when one does;
+      (h) round robin, per accessor: take the picks of ONE accessor (calls of the other accessor and waits in between
+          do not matter) over consecutive calls of it that all see the same non-empty eligible set: every
+          len(eligible) consecutive picks are a permutation of that set (any cyclic order).
+    NOT stated here (pinned by the model comparison only): the two counters, which eligible resource a strategy
+    picks, in which order round robin walks the set, when checks start."""
     dec = decode(s, t)
     if dec is None:
         return "malformed or panicking run: %s" % t[:12]
     (n, f, sth, interval, timeout, init, strat), tables, evs = dec
-    prev = [(K, 0, 0, 0, 0)] * n          # status Unknown, counters 0, nothing started
-    cur_status = [K] * n
-    rr_window = []                        # (eligible tuple, picks) for consecutive round-robin picks
+    prev = [(K, 0, 0, 0, 0)] * n          # status Unknown, nothing started
+    cur_status = None                     # published statuses are known from the first observation on
+    judged = [True] * n                   # False once checks of the resource overlapped (order of results unknown)
+    window = {1: None, 2: None}           # per accessor: [eligible set, its picks while it saw that set]
     for (op, arg, payload) in evs:
         if op == 0:
+            if cur_status is None:
+                cur_status = [K] * n
             for i, o in enumerate(payload):
-                stt, cfl, csu, started, fin = o
+                stt, _cfl, _csu, started, fin = o
                 p = prev[i]
-                if not (p[4] <= fin <= started <= fin + 1 and started >= p[3]):
+                if stt not in (H, D, U, K):
+                    return "resource %d: get_status / get_all_statuses / get_health_details disagree (code %d)" % (i, stt)
+                if not (p[4] <= fin <= started and started >= p[3] and fin >= 0):
                     return "resource %d: check counts went %s -> %s" % (i, p, o)
-                res = [eff(tables, i, k, timeout) for k in range(fin)]
-                nk = [x for x in res if x != K]           # Unknown answers change nothing
-                new = res[p[4]:fin]
-                # counters restated: trailing runs of the non-Unknown results
-                run_f = 0
-                for x in reversed(nk):
-                    if x == U:
-                        run_f += 1
-                    else:
-                        break
-                run_s = 0
-                for x in reversed(nk):
-                    if x in (H, D):
-                        run_s += 1
-                    else:
-                        break
-                if (cfl, csu) != (run_f, run_s):
-                    return "resource %d: counters (%d,%d) but the trailing runs are (%d,%d)" % (i, cfl, csu, run_f, run_s)
-                if stt != p[0]:
-                    # a flip happened among the new results: find a result that justifies it
-                    ok = False
-                    for m in range(p[4], fin):
-                        upto = [x for x in res[:m + 1] if x != K]
-                        last = res[m]
-                        if stt == U and last == U and f >= 0 and len(upto) >= max(f, 1) and all(x == U for x in upto[-max(f, 1):]):
-                            ok = True
-                        if stt == H and last == H and len(upto) >= max(sth, 1) and all(x in (H, D) for x in upto[-max(sth, 1):]):
-                            ok = True
-                        if stt == D and last == D:
-                            ok = True
-                    if stt == K:
-                        ok = False
-                    if not ok:
-                        return ("resource %d: status flipped %d -> %d at checks %d..%d without the required run "
-                                "(thresholds f=%d s=%d, results %s)" % (i, p[0], stt, p[4], fin, f, sth, res))
-                if all(x == K for x in new) and (stt, cfl, csu) != p[:3]:
-                    return "resource %d: only Unknown results (or none) but state changed %s -> %s" % (i, p, o)
-                if new and new[-1] == D and stt != D:
-                    return "resource %d: a Degraded result was not published at once" % i
-                if fin > 0:
-                    # exact published status, restated as a scan over all results so far
-                    exp = K; a = b = 0
-                    for x in res:
-                        if x == H:
-                            a += 1; b = 0
-                            if a >= sth: exp = H
-                        elif x == D:
-                            a += 1; b = 0; exp = D
-                        elif x == U:
-                            b += 1; a = 0
-                            if b >= f: exp = U
-                    if exp != stt:
-                        return "resource %d: published %d, specified %d after results %s" % (i, stt, exp, res)
+                if started > fin + 1:
+                    judged[i] = False     # overlapping checks: the trace does not tell in which order they finished
                 prev[i] = o
                 cur_status[i] = stt
-            rr_window = []
+                if not judged[i]:
+                    continue
+                res = [eff(tables, i, k, timeout) for k in range(fin)]
+                new = res[p[4]:fin]
+                exp = specified_status(res, f, sth)
+                if stt == exp or (not SUFFICIENT_FLIPS and stt in permitted_statuses(res, f, sth)):
+                    continue
+                ctx = "(thresholds f=%d s=%d, effective results %s, was %s)" % (f, sth, res[-24:], NAMES[p[0]])
+                if all(x == K for x in new):
+                    return "resource %d: (d) only Unknown results (or none) since the last observation but the status went %s -> %s %s" % (i, NAMES[p[0]], NAMES[stt], ctx)
+                if stt == U:
+                    return "resource %d: (a) Unhealthy published without %d consecutive failed/timed-out checks %s" % (i, f, ctx)
+                if stt == H:
+                    return "resource %d: (b) Healthy published but no Healthy check completed a run of %d non-failing checks %s" % (i, sth, ctx)
+                if exp == D and [x for x in new if x != K][-1:] == [D]:
+                    return "resource %d: (c) a Degraded result was not published at once: status %s %s" % (i, NAMES[stt], ctx)
+                if exp == U:
+                    return "resource %d: (a) %d consecutive failed/timed-out checks did not publish Unhealthy: status %s %s" % (i, f, NAMES[stt], ctx)
+                if exp == H:
+                    return "resource %d: (b) a Healthy check completed a run of %d non-failing checks but Healthy was not published: status %s %s" % (i, sth, NAMES[stt], ctx)
+                return "resource %d: (e) status is %s, the rule gives %s %s" % (i, NAMES[stt], NAMES[exp], ctx)
         else:
+            if cur_status is None:
+                continue                  # no observation yet: the monitor does not know the published statuses
+            name = "get_healthy" if op == 1 else "get_usable"
             want = (lambda x: x == H) if op == 1 else (lambda x: x in (H, D))
             elig = [i for i in range(n) if want(cur_status[i])]
             for pick in payload:
                 if pick == -1:
                     if elig and strat in (0, 1, 2):
-                        return "%s returned nothing although %s qualify" % ("get_healthy" if op == 1 else "get_usable", elig)
-                else:
-                    if pick not in elig:
-                        return "%s returned resource %d whose published status is %s" % (
-                            "get_healthy" if op == 1 else "get_usable", pick,
-                            cur_status[pick] if 0 <= pick < n else "?")
-                if not elig and pick != -1:
-                    return "selection returned %d although nothing qualifies" % pick
-                if strat == 0 and elig and pick != elig[0]:
-                    return "FirstAvailable returned %d, first eligible is %d" % (pick, elig[0])
-                if strat == 2 and elig:
-                    hs = [i for i in elig if cur_status[i] == H]
-                    if pick != (hs[0] if hs else elig[0]):
-                        return "PreferHealthy returned %d" % pick
+                        return "(g) %s returned nothing although %s qualify" % (name, elig)
+                elif not elig:
+                    return "(g) %s returned %d although nothing qualifies" % (name, pick)
+                elif pick not in elig:
+                    return "(f) %s returned resource %d whose published status is %s" % (
+                        name, pick, NAMES.get(cur_status[pick], "?") if 0 <= pick < n else "?")
             if strat == 1 and elig:
-                # evenness over every window of k*len(elig) consecutive picks with a constant eligible set
-                if rr_window and rr_window[0] != tuple(elig):
-                    rr_window = []
-                if not rr_window:
-                    rr_window = [tuple(elig), []]
-                rr_window[1].extend(payload)
-                picks = rr_window[1]
-                m = len(elig)
-                for a in range(0, len(picks) - m + 1):
+                if window[op] is None or window[op][0] != elig:
+                    window[op] = [elig, []]
+                picks, m = window[op][1], len(elig)
+                picks.extend(payload)
+                for a in range(max(0, len(picks) - len(payload) - m + 1), len(picks) - m + 1):
                     w = picks[a:a + m]
-                    if sorted(w) != sorted(elig):
-                        return "round robin: %d consecutive picks %s are not a permutation of the eligible set %s" % (m, w, elig)
+                    if sorted(w) != elig:
+                        return "(h) round robin: %d consecutive %s picks %s are not a permutation of the eligible set %s" % (m, name, w, elig)
+            else:
+                window[op] = None
     return None
 
 
@@ -287,9 +434,13 @@ def nontrivial(s, t):
 
 
 def classify(s, t):
-    out = ["n%d" % s[0], "strategy%d" % s[6], "f%d" % min(s[1], 4), "s%d" % min(s[2], 4)]
+    def bucket(x):
+        return str(x) if x <= 4 else ("5-12" if x <= 12 else ("byte-edge" if x <= 300 else "huge"))
+    out = ["n%d" % min(s[0], 5), "strategy%d" % (s[6] % 16), "route%d" % (s[6] // 16), "f" + bucket(s[1]), "s" + bucket(s[2])]
     if s[3] <= s[4]:
         out.append("interval_le_timeout")
+    if max(s[3], s[4], s[5]) >= BIG:
+        out.append("huge_duration")
     dec = decode(s, t)
     if dec:
         (n, f, sth, interval, timeout, init, strat), tables, evs = dec
@@ -299,11 +450,15 @@ def classify(s, t):
             out.append("has_tie_with_timeout")
         flips = set()
         prev = [K] * n
+        last_sel = None
         for (op, arg, payload) in evs:
             if op == 0:
+                last_sel = None
                 for i, o in enumerate(payload):
                     if o[0] != prev[i]:
                         flips.add("flip_%d_to_%d" % (prev[i], o[0]))
+                        if (o[0] == U and f >= 5) or (o[0] == H and sth >= 5):
+                            flips.add("flip_at_threshold_ge5")
                         prev[i] = o[0]
                     if o[3] != o[4]:
                         flips.add("observed_in_flight")
@@ -312,6 +467,13 @@ def classify(s, t):
                     flips.add("select_none")
                 if any(p != -1 for p in payload):
                     flips.add("select_some")
+                if last_sel is not None and last_sel != op and strat == 1:
+                    flips.add("rr_accessors_interleaved")
+                    eh = [i for i in range(n) if prev[i] == H]
+                    eu = [i for i in range(n) if prev[i] in (H, D)]
+                    if eh and eh != eu:
+                        flips.add("rr_interleaved_differing_sets")
+                last_sel = op
         out += sorted(flips)
     return out
 
@@ -325,6 +487,9 @@ def shrink(s):
         if s[base + 2 * j] in (1, 2):
             c = s[:8] + [n_ev - 1] + s[9:base + 2 * j] + s[base + 2 * j + 2:base + 2 * n_ev]
             yield c
+            if s[base + 2 * j + 1] > 1:
+                c = list(s); c[base + 2 * j + 1] -= 1
+                yield c
     for i in range(n):
         for k in range(r):
             p = 9 + 2 * (i * r + k)
